@@ -33,11 +33,11 @@ Theorem vector_insert_in_capacity : forall fill v pos src,
 Proof. intros. split; [apply insert_in_capacity_keeps_cap | apply insert_list_data]; assumption. Qed.
 Print Assumptions vector_insert_in_capacity.
 
-Example vector_growth_policy :
-  map (fun o => match o with Some (_, _, c, _) => c | None => 0 end)
-      (vrun vinit (map VPush [1;2;3;4;5;6;7;8;9;10;11;12;13;14])) = [1;2;3;5;5;8;8;8;13;13;13;13;13;21].
-Proof. vm_compute. reflexivity. Qed.
-Print Assumptions vector_growth_policy.
+(* push_back on a full vector reallocates to the regenerated growth policy (whatever its constants) *)
+Theorem vector_push_growth : forall v x, 1 <= vsize v -> vsize v = vcap v ->
+  vcap (do_push_back v x) = grow_cap (vsize v) /\ vsize v < grow_cap (vsize v).
+Proof. exact push_growth. Qed.
+Print Assumptions vector_push_growth.
 
 (* FULL statement for insert(pos, n, value) when [value] is a reference to element i of the vector
    itself (std::vector is required to handle it): the result is the insertion of n copies of the
@@ -100,7 +100,7 @@ Print Assumptions map_find_is_lookup.
 (* the hypotheses are satisfiable and the mechanisms are exercised: with threshold 2 and 3 buckets
    the second erase compacts the buckets (erase count back to 0, the stale reference gone while the
    reused node is referenced twice); with load factor 3/4 and 3 buckets the 7th insert rehashes to
-   floor(1.6 * 6) = 9 buckets *)
+   floor(growth * 6) buckets (growth regenerated from the header: 1.6 -> 9) *)
 Example map_compaction_and_rehash :
   let run := mrun (fun k => k) (mkms (new_map 3 4 3 2) (new_map 3 4 29 50) false 0) in
   forallb mop_ok [MIns 1 10; MIns 4 40; MIns 7 70; MErase 4; MIns 10 100; MErase 1] = true /\
@@ -109,7 +109,8 @@ Example map_compaction_and_rehash :
   = [(0, [[]; [0]; []]); (0, [[]; [0; 1]; []]); (0, [[]; [0; 1; 2]; []]); (1, [[]; [0; 1; 2]; []]);
      (1, [[]; [0; 1; 2; 1]; []]); (0, [[]; [1; 2; 1]; []])] /\
   map (fun '(_, _, _, m) => length (m_buckets m))
-      (run [MIns 1 1; MIns 2 1; MIns 3 1; MIns 4 1; MIns 5 1; MIns 6 1; MIns 7 1]) = [3; 3; 3; 3; 3; 3; 9].
+      (run [MIns 1 1; MIns 2 1; MIns 3 1; MIns 4 1; MIns 5 1; MIns 6 1; MIns 7 1])
+  = [3; 3; 3; 3; 3; 3; 6 * map_grow_num / map_grow_den].
 Proof. vm_compute. repeat split. Qed.
 Print Assumptions map_compaction_and_rehash.
 
